@@ -515,7 +515,11 @@ func c14Post(r *run.Run) {
 				}
 				names[0] = ".notdef"
 			case 0:
-				n := c.Choose(5, "length")
+				maxLen := 5
+				if !r.Quick() {
+					maxLen = 7 // lists of up to 6 names over the 6-name alphabet (56 k lists)
+				}
+				n := c.Choose(maxLen, "length")
 				names = []string{}
 				for i := 0; i < n; i++ {
 					names = append(names, alphabet[c.Choose(len(alphabet), "name")])
